@@ -6,7 +6,7 @@ from typing import Dict, List, Optional, Set, Tuple
 
 from ..core import Ctx, Ob, rule
 from ..effects import Effects
-from ..infer import Env, TREE
+from ..infer import NODE, TREE, Env
 from ..model import AnalysisError, Func, Model, iter_own, norm
 
 STRUCT_READ_ATTRS = {"_root", "_node_by_id", "_nodes_by_data_id"}
@@ -22,21 +22,50 @@ def _reads_structure(ctx: Ctx) -> Set[Func]:
     if cached is not None:
         return cached
     out: Set[Func] = set()
-    for f in ctx.model.all_funcs():
+    env = ctx.env
+    m = ctx.model
+    for f in m.all_funcs():
         for n in iter_own(f.node):
             if isinstance(n, ast.Attribute) and isinstance(n.ctx, ast.Load) and n.attr in (STRUCT_READ_ATTRS | {"_children"}):
                 out.add(f)
                 break
+            # iterating a node or a tree walks the structure (Node.__iter__/Tree.__iter__)
+            it = None
+            if isinstance(n, (ast.For, ast.comprehension)):
+                it = n.iter
+            elif isinstance(n, ast.YieldFrom):
+                it = n.value
+            elif isinstance(n, ast.Call) and isinstance(n.func, ast.Name) and n.func.id in ("list", "tuple", "sorted", "enumerate", "len") and n.args:
+                it = n.args[0]
+            if it is not None and (env.types(f, it) & {NODE, TREE}):
+                out.add(f)
+                break
+
+    def prop_reads(f: Func, n: ast.Attribute) -> bool:
+        bt = env.types(f, n.value)
+        for base, tag in (("Node", NODE), ("Tree", TREE)):
+            if tag in bt:
+                for cn in m.subclasses(base):
+                    g = m.lookup(cn, n.attr)
+                    if g is not None and g.kind == "property" and g in out:
+                        return True
+        return False
+
     changed = True
     while changed:
         changed = False
-        for f in ctx.model.all_funcs():
+        for f in m.all_funcs():
             if f in out:
                 continue
             hit = any(g in out for g in f.nested)
             if not hit:
-                for c in ctx.env.calls_in[f]:
-                    if any(g in out for g, _ in ctx.env.callees(f, c)):
+                for c in env.calls_in[f]:
+                    if any(g in out for g, _ in env.callees(f, c)):
+                        hit = True
+                        break
+            if not hit:
+                for n in iter_own(f.node):
+                    if isinstance(n, ast.Attribute) and isinstance(n.ctx, ast.Load) and prop_reads(f, n):
                         hit = True
                         break
             if hit:
@@ -158,7 +187,7 @@ def zz_nested_locks(a: Tree, b: Tree) -> None:
 '''
 
 
-@rule("LOCK", ["C18", "C14"], floor=12, section="3.12")
+@rule("LOCK", ["C18", "C14", "C13"], floor=12, section="3.12")
 def lock(ctx: Ctx) -> List[Ob]:
     """lockset: every structural read of a snapshot operation happens inside `with tree:` (or is delegated to a callee that locks); __enter__/__exit__ acquire/release the tree's RLock on every path; the lock object is created once as an RLock; no snapshot operation takes a second tree's lock"""
     obs: List[Ob] = []
@@ -183,6 +212,74 @@ def lock(ctx: Ctx) -> List[Ob]:
         for n, why in bad:
             obs.append(ctx.ob("LOCK", props, g, f"unlocked read: {norm(n)}", n, False,
                               f"{why} outside `with {tvar}:` - a concurrent writer inside its own `with tree:` can be observed half-way"))
+    # LOCK-1b: lazily evaluated reads (generators) are consumed inside the region
+    def is_generator(g: Func) -> bool:
+        return any(isinstance(x, (ast.Yield, ast.YieldFrom)) for x in iter_own(g.node, into_lambda=False))
+
+    for g, tvar in entries:
+        regions = _with_regions(g, tvar)
+        for c in ctx.env.calls_in[g]:
+            if not _inside(ctx, c, regions, g):
+                continue
+            gens = [h for h, _ in ctx.env.callees(g, c) if h in lc.reads and is_generator(h)]
+            if not gens:
+                continue
+            par = m.parent_of(c)
+            why = None
+            if isinstance(par, (ast.Assign, ast.AnnAssign)) and isinstance((par.targets[0] if isinstance(par, ast.Assign) else par.target), ast.Name):
+                nm = (par.targets[0] if isinstance(par, ast.Assign) else par.target).id
+                outside = [x for x in iter_own(g.node) if isinstance(x, ast.Name) and x.id == nm and isinstance(x.ctx, ast.Load) and not _inside(ctx, x, regions, g)]
+                if outside:
+                    why = f"the generator `{norm(c)}` is created under the lock but consumed at L{outside[0].lineno}, after the lock was released"
+            elif isinstance(par, ast.Return):
+                why = f"the generator `{norm(c)}` is returned from inside the region: it is consumed after the lock was released"
+            obs.append(ctx.ob("LOCK", ["C18"], g, f"lazy walk {gens[0].qualname}() is consumed inside the critical section of {g.qualname}", c, why is None,
+                              "" if why is None else why + ": the tree is read outside `with tree:`"))
+    # LOCK-1c: one snapshot = one critical section on every path
+    for g, tvar in entries:
+        regions = [r for r in _with_regions(g, tvar)
+                   if not any(r is not o and any(x is r for x in ast.walk(o)) for o in _with_regions(g, tvar))]
+        cfg = ctx.cfg(g)
+        units = []  # (cfg node where the unit starts, description)
+        for r in regions:
+            n = cfg.node_for(r)
+            if n is not None:
+                units.append((n, f"with {tvar}: at L{r.lineno}", r))
+        for c in ctx.env.calls_in[g]:
+            if _inside(ctx, c, _with_regions(g, tvar), g):
+                continue
+            for h, recv in ctx.env.callees(g, c):
+                if h in lc.reads and h.name != "__init__":
+                    passes = (recv is not None and isinstance(recv, ast.Name) and recv.id == tvar) or \
+                        (isinstance(c.func, ast.Attribute) and isinstance(c.func.value, ast.Call) and norm(c.func.value.func) == "super" and tvar == g.self_name) or \
+                        any(isinstance(a, ast.Name) and a.id == tvar for a in list(c.args) + [k.value for k in c.keywords])
+                    if passes:
+                        n = cfg.stmt_node_of(c, m.parent_of)
+                        if n is not None:
+                            units.append((n, f"{norm(c.func)}() at L{c.lineno}", c))
+                        break
+        bad = None
+        for a in units:
+            for b in units:
+                if a[0] is b[0]:
+                    continue
+                # a path that leaves unit a and later enters unit b
+                if cfg.find_path(a[0], b[0], strict=True) is not None and not any(x is b[2] for x in ast.walk(a[2])):
+                    bad = (a, b)
+        obs.append(ctx.ob("LOCK", ["C18"], g, f"{g.qualname} reads the tree in one critical section per call", None, bad is None,
+                          "" if bad is None else f"two separately locked sections on one path ({bad[0][1]}, then {bad[1][1]}): a writer can run in between, "
+                          "so the operation does not observe one state between two critical sections"))
+    # LOCK-1d: the lock is only driven through the context manager
+    raw = []
+    for h in m.all_funcs():
+        if h.qualname in ("Tree.__enter__", "Tree.__exit__"):
+            continue
+        for c in ctx.env.calls_in[h]:
+            if isinstance(c.func, ast.Attribute) and c.func.attr in ("acquire", "release") and norm(c.func.value).endswith("._lock"):
+                raw.append((h, c))
+    obs.append(ctx.ob("LOCK", ["C18", "C13"], raw[0][0] if raw else "package", "the tree lock is acquired and released only by `with tree:` (__enter__/__exit__)", raw[0][1] if raw else None, not raw,
+                      "" if not raw else f"{raw[0][0].qualname} calls `{norm(raw[0][1])}` directly: without try/finally an exception (e.g. from a mapper) leaves the lock held "
+                      "and every other thread blocks"))
     # LOCK-2 ---------------------------------------------------------------
     ent = m.func("Tree.__enter__")
     ex = m.func("Tree.__exit__")
